@@ -18,7 +18,7 @@ func TestHappyPath(t *testing.T) {
 					if blinded && role != spectypes.BNRoleProposer {
 						continue
 					}
-					s := New(Config{N: n, Self: 2, Blinded: blinded, Direct: direct})
+					s := New(Config{N: n, Self: 2, Blinded: blinded, Direct: direct, ForkEpochs: []uint64{0}})
 					slot := phase0.Slot(13)
 					duty := s.Duty(role, slot)
 					s.NextOp()
@@ -82,7 +82,7 @@ func TestHappyPath(t *testing.T) {
 						if sub.Kind == "registration" {
 							obj = s.Registration(slot)
 						}
-						if !s.VerifyValidatorSig(sub.Sig[:], obj, sub.DomainType) {
+						if !s.VerifyValidatorSig(sub.Sig[:], obj, sub.DomainType, slot) {
 							t.Fatalf("%v n=%d: submitted %s signature does not verify", role, n, sub.Kind)
 						}
 					}
